@@ -247,8 +247,14 @@ def main():
                 assumptions.append(a)
     assumptions += P.get("assumptions", [])
     samples = []
+    def named_obligations(unit):
+        gp = os.path.join(gen_dir, unit + ".rs")
+        if not os.path.exists(gp):
+            return []
+        return sorted({m for m in re.findall(r"// @ob (\S+)", open(gp).read()) if m != "__canary"})
     for r in v_results:
         samples.append(dict(engine="verus", unit=r["unit"], status=r["status"], obligations=r["obligations"],
+                            named_obligations=named_obligations(r["unit"]),
                             discharged=r["discharged"], solver_ms=r["solver_ms"], wall_s=round(r["wall_s"], 2),
                             claims=r.get("claims", []), functions_under_contract=r["under_contract"],
                             rewrite_rules_fired=r["rewrite_log"], reason=r["reason"],
